@@ -831,6 +831,7 @@ type shadowOuter struct {
 	V uint16 `hash:"param:v"`
 	X string
 }
+
 // a shadowed parameter next to optional fields: the required-fragment count must count the shadowed name once
 type shadowOptOuter struct {
 	shadowInner
